@@ -376,7 +376,11 @@ def build_repo(world, faults):
     files = {index_url: index, REMOTE + ".gz": full}
     for j in range(n):
         files[REMOTE + ".diff/" + names[j] + ".gz"] = _gz(served[j])
+    effective = {}
     for url, f in fired_if_fetched.items():
+        if f["kind"] not in ("gz_truncate", "gz_bitflip"):
+            continue
+        good = files[url]
         if f["kind"] == "gz_truncate":
             d = files[url]
             files[url] = d[:max(1, f.get("pos", 0) % len(d))]
@@ -385,14 +389,22 @@ def build_repo(world, faults):
             p = f.get("pos", 0) % len(d)
             d[p] ^= 1 << (f.get("bit", 0) % 8)
             files[url] = bytes(d)
+        # does the damage change what a reader gets?  (a flipped bit in e.g. the gzip
+        # header's mtime or OS byte is invisible)
+        try:
+            effective[url] = gzip.decompress(files[url]) != gzip.decompress(good)
+        except Exception:   # pylint: disable=broad-except
+            effective[url] = True
     info = {"names": names, "lo": lo, "payload_faults": fired_if_fetched,
-            "index_ops": index_ops}
+            "index_ops": index_ops, "effective": effective}
     return files, fetch_faults, info
 
 
 # --------------------------------------------------------------------------- one execution
 
-MUST_RAISE_PATCH = ("drop_line", "dup_line", "change_line")
+MUST_RAISE_PATCH = ("drop_line", "dup_line", "change_line",
+                    # the patch as downloaded cannot be the one whose hash the index records
+                    "gz_truncate-effective", "gz_bitflip-effective")
 MUST_CONVERGE_INDEX = ("missing", "garbage", "garbage_head")
 
 
@@ -514,7 +526,8 @@ def run_one(world, faults, log=None, out=None, transport="sim", judge=True):
         fired.append((site, k, ""))
     for u, f in info["payload_faults"].items():
         if any(x[0] == u for x in net.log):
-            fired.append((f["site"], f["kind"], ""))
+            fired.append((f["site"], f["kind"] + ("-effective" if info["effective"].get(u)
+                                                  else ""), ""))
     index_fetched = any(u.endswith("Index") for (u, _) in net.log)
     for f in info["index_ops"]:
         if f["kind"] not in ("missing", "abort") and index_fetched:
